@@ -27,6 +27,7 @@ type scanTables struct {
 	scanFD     *ast.FuncDecl
 	foundFD    *ast.FuncDecl // the per-type matching method used in the case arms
 	tableLoop  *ast.RangeStmt // data-driven scan: the loop over the table of token types
+	orChain    ast.Expr       // scan written as found(A) || found(B) || ...
 	problems   []string
 }
 
@@ -161,6 +162,58 @@ func (c *Ctx) scanTables() *scanTables {
 		}
 		return true
 	})
+	if len(st.order) == 0 {
+		// or-chain form: found(A) || found(B) || ...  in the scan loop or in an unexported method it calls
+		var scan func(body ast.Node, depth int)
+		scan = func(body ast.Node, depth int) {
+			ast.Inspect(body, func(x ast.Node) bool {
+				if len(st.order) > 0 {
+					return false
+				}
+				be, ok := x.(*ast.BinaryExpr)
+				if !ok || be.Op != token.LOR {
+					if call, ok := x.(*ast.CallExpr); ok && depth < 2 {
+						if cf := calleeOf(info, call); cf != nil && !cf.Exported() {
+							if d := c.declOf(cf); d != nil && d.Body != nil && d != st.scanFD && c.infoFor(d) == info {
+								scan(d.Body, depth+1)
+							}
+						}
+					}
+					return true
+				}
+				var terms []ast.Expr
+				var flat func(e ast.Expr)
+				flat = func(e ast.Expr) {
+					if b, ok := ast.Unparen(e).(*ast.BinaryExpr); ok && b.Op == token.LOR {
+						flat(b.X)
+						flat(b.Y)
+						return
+					}
+					terms = append(terms, ast.Unparen(e))
+				}
+				flat(be)
+				var order []string
+				var found *ast.FuncDecl
+				for _, t := range terms {
+					call, ok := t.(*ast.CallExpr)
+					if !ok || len(call.Args) != 1 || info.Types[call.Args[0]].Value == nil {
+						return true
+					}
+					d := c.declOf(calleeOf(info, call))
+					if d == nil || (found != nil && d != found) {
+						return true
+					}
+					found = d
+					order = append(order, exprStr(call.Args[0]))
+				}
+				if len(order) >= 3 {
+					st.order, st.foundFD, st.orChain = order, found, be
+				}
+				return false
+			})
+		}
+		scan(st.scanLoop.Body, 0)
+	}
 	if len(st.order) == 0 {
 		// data-driven form: for _, t := range <table of token types> { if v.found(t) { continue scanning } }
 		ast.Inspect(st.scanLoop.Body, func(x ast.Node) bool {
